@@ -88,6 +88,20 @@ func c03Exprs(quick bool) (fromAll []string, fromRoot []string) {
 			fromAll = append(fromAll, rv+"/"+t, "descendant-or-self::*/"+rv+"/"+t)
 		}
 	}
+	// predicated steps evaluated from several context nodes (nested, and in
+	// reverse order after a reverse axis): the merged result must be ordered too
+	pSteps := []string{"*", "a", "node()", "child::*", "@*", "descendant::*", "following-sibling::*", "preceding-sibling::*", "ancestor::*", "text()"}
+	pPreds := []string{"[@x]", "[last()]", "[position() > 1]", "[1]", "[*]", "[not(*)]", "[true()][2]"}
+	for _, st := range pSteps {
+		for _, pr := range pPreds {
+			for _, cx := range []string{"ancestor-or-self::*", "preceding::*", "descendant-or-self::*", "*"} {
+				fromAll = append(fromAll, cx+"/"+st+pr)
+			}
+			for _, cx := range []string{"//*", "//node()", "//*/.."} {
+				fromRoot = append(fromRoot, cx+"/"+st+pr)
+			}
+		}
+	}
 	u := c03Universe
 	if quick {
 		u = u[:20]
@@ -131,7 +145,7 @@ func C03(c *run.Check) {
 			}
 		}
 	}
-	c.Rule = fmt.Sprintf("forests with <=%d nodes over {a,b,text,comment,PI} x decorations D0-D2, D5: %d multi-step paths over 13 axes x {node(),*} (and attribute/namespace steps after reverse axes) from EVERY context node; forests with <=%d nodes x D0-D2, D5: %d paths, pairwise unions, count() of unions and association shapes from the root. Oracle on the implementation's own answer: no node twice, no foreign cursor, strictly monotone in document order, ascending without reverse axis and for unions; plus identity-set equality with the reference (union = sorted set union, count = inclusion-exclusion). non-trivial = distinct (expression, context kind, non-empty size)", n, len(fromAll), n+1, len(fromRoot))
+	c.Rule = fmt.Sprintf("forests with <=%d nodes over {a,b,text,comment,PI} x decorations D0-D2, D5: %d multi-step paths over 13 axes x {node(),*} (and attribute/namespace steps after reverse axes, and 10 step forms x 7 predicates after multi-node context sets) from EVERY context node; forests with <=%d nodes x D0-D2, D5: %d paths, pairwise unions, count() of unions and association shapes from the root. Oracle on the implementation's own answer: no node twice, no foreign cursor, strictly monotone in document order, ascending without reverse axis and for unions; plus identity-set equality with the reference (union = sorted set union, count = inclusion-exclusion). non-trivial = distinct (expression, context kind, non-empty size)", n, len(fromAll), n+1, len(fromRoot))
 	shapesA := c01Shapes(n)
 	shapesB := c01Shapes(n + 1)
 	decos := []int{adoc.D0, adoc.D1, adoc.D2, adoc.D5}
